@@ -129,6 +129,8 @@ public:
     void yield();
     void fence();
     void note(const ::std::string& s);                // annotation in the trace, no scheduling point
+    //! harness hint: the calling thread has left a spin loop (its next load of a spin_var is a fresh one)
+    void spin_reset() { if (self_()) self_()->spin_addr = nullptr; }
 
     void mutex_lock(const void* obj, MutexState* m);
     bool mutex_try_lock(const void* obj, MutexState* m);
